@@ -264,3 +264,28 @@ fn certhashes_to_string(certhashes: &HashSet<Multihash<64>>) -> String {
 
     s
 }
+
+/// Verification hooks (only with `--cfg libp2p_verif`): thin access to crate-private items.
+#[cfg(libp2p_verif)]
+pub mod verif {
+    use libp2p_identity as identity;
+
+    use crate::{Config, protocol::KeypairIdentity};
+
+    /// The identity payload (identity public key, signature over the static DH key) that `config`
+    /// sends in its handshake message.
+    pub fn identity_payload(config: &Config) -> (identity::PublicKey, Vec<u8>) {
+        let id = &config.dh_keys.identity;
+        (id.public.clone(), id.signature.clone())
+    }
+
+    /// Replace the identity payload `config` sends (its static DH key is unchanged).
+    pub fn with_identity_payload(
+        mut config: Config,
+        public: identity::PublicKey,
+        signature: Vec<u8>,
+    ) -> Config {
+        config.dh_keys.identity = KeypairIdentity { public, signature };
+        config
+    }
+}
